@@ -453,6 +453,9 @@ COMPONENTS['insitu_retry'] = _insitu('retry', 3, 'S2')
 COMPONENTS['insitu_adaptive'] = _insitu('adaptive', 1, 'S3')
 COMPONENTS['insitu_ratelimiter'] = _insitu('ratelimiter', 2, 'S3')
 COMPONENTS['insitu_coalesce'] = _insitu('coalesce', 3, 'S3')
+COMPONENTS['insitu4_timelimiter'] = _insitu('timelimiter', 1, 'S4')
+COMPONENTS['insitu_cache'] = _insitu('cache', 2, 'S4')
+COMPONENTS['insitu4_bulkhead'] = _insitu('bulkhead', 3, 'S4')
 
 PROPS = {
     'C01': {'comp': 'bulkhead', 'profile': 'ProfC01', 'drift_profile': 'ProfAll',
@@ -512,6 +515,10 @@ _add_insitu('C13', 'insitu_adaptive', 'service')
 _add_insitu('C02', 'insitu_ratelimiter', 'ProfC02')
 _add_insitu('C15', 'insitu_ratelimiter', 'ProfC15')
 _add_insitu('C11', 'insitu_coalesce', 'full')
+_add_insitu('C10', 'insitu_cache', 'FALSE')
+_add_insitu('C06', 'insitu4_timelimiter', 'full')
+_add_insitu('C01', 'insitu4_bulkhead', 'ProfC01')
+_add_insitu('C07', 'insitu4_bulkhead', 'ProfC07')
 _add_insitu('C01', 'insitu_bulkhead', 'ProfC01')
 _add_insitu('C07', 'insitu_bulkhead', 'ProfC07')
 _add_insitu('C03', 'insitu_circuitbreaker', 'ProfC03')
